@@ -110,8 +110,10 @@ def impl_op(r, op):
             x = r.randint(op[1], op[2]); return x, x
         if k == "randints":
             x = r.randints(op[1], op[2], op[3]); return list(x), x
-        if k == "shuffle":
-            x = r.shuffle(list(range(op[1]))); return list(x), x
+        if k == "shuffle":      # the sequence is handed over as a list, a tuple or a one-shot iterable (iterator, generator, map) - the argument form depends only on the op, not on the run
+            n = op[1]; form = (n + 2) % 5
+            arg = [list(range(n)), tuple(range(n)), iter(list(range(n))), (i for i in range(n)), map(int, range(n))][form]
+            x = r.shuffle(arg); return list(x), list(x) if not isinstance(x, list) else x
         if k == "choice":
             x = r.choice(list(range(op[1]))); return x, x
         if k == "choicew_u":
@@ -307,12 +309,35 @@ def cross_process(ctx):
         if any(o[i] != outs[0][i] for o in outs):
             ctx.fail(["process-dependent", type(s).__name__], "CobaRandom(%r) gives different streams in different interpreter processes (PYTHONHASHSEED 0/1/12345/random): %s" % (s, [o[i][0] for o in outs]), dict(seed=repr(s)))
 
+def users_law(ctx):
+    """the seeded filters built on CobaRandom: what a filter object yields depends on its seed and its input only - not on how often the object was read before, nor on a pickle round trip"""
+    import pickle
+    import coba.pipes.filters as PF
+    rng = ctx.rng
+    for _ in range(ctx.n(60, 600)):
+        seed = rng.choice([1, 2, 7, seed_for(rng.choice([0, 1, 2**30 - 1]), rng.randrange(0, 6)), rng.randrange(2**30)]); n = rng.choice([0, 1, 2, 5, 9, 30]); items = list(range(100, 100 + n))
+        kind = rng.choice(["reservoir", "reservoir", "shuffle"])
+        cnt = rng.choice([None, 0, 1, 3, n, n + 2])
+        make = (lambda: PF.Reservoir(cnt, seed=seed)) if kind == "reservoir" else (lambda: PF.Shuffle(seed))
+        case = dict(filter=kind, seed=repr(seed), count=cnt, n=n)
+        ctx.count("users:" + kind, repr(case), n >= 2)
+        try:
+            f = make(); first = list(f.filter(iter(items))); second = list(f.filter(iter(items))); fresh = list(make().filter(iter(items)))
+            pick = list(pickle.loads(pickle.dumps(f)).filter(iter(items)))
+        except Exception as e:
+            ctx.fail(["users", "raises", errname(e)], "%s raised %s on %s" % (kind, errname(e), case), case); continue
+        if not (first == second == fresh == pick):
+            ctx.fail(["users", "history-dependent", kind], "one %s object read twice gives %r then %r; a fresh one %r; a pickled copy %r" % (kind, first, second, fresh, pick), case)
+        elif sorted(first) != sorted(items)[:len(first)] and not set(first) <= set(items):
+            ctx.fail(["users", "not-from-input", kind], "%r is not drawn from the input" % (first,), case)
+
 def run(ctx):
     os.makedirs(os.path.join(VERIF, ".work"), exist_ok=True)
     check_cases(ctx, targeted_cases(), "targeted")
     check_cases(ctx, [gen_case(ctx.rng) for _ in range(ctx.n(400, 6000))], "random-seq")
     float_cases(ctx, ctx.n(300, 3000))
     cross_process(ctx)
+    users_law(ctx)
     replay_known(ctx)
 
 def replay(r):
